@@ -19,6 +19,7 @@ import (
 	logger "github.com/containers/nri-plugins/pkg/log"
 	"github.com/containers/nri-plugins/pkg/verif/mc"
 	"github.com/containers/nri-plugins/pkg/verif/sched"
+	"github.com/containers/nri-plugins/pkg/verif/vos"
 )
 
 func TestVerifC15Fetch(t *testing.T) {
@@ -40,7 +41,17 @@ func TestVerifC15Fetch(t *testing.T) {
 			ctrOK bool
 		}
 		var o *obs
+		var strayIO []string
 		body := func(s *sched.Scheduler) {
+			// the cache is unsynchronised and relies on its caller's lock: only handler threads may write the state
+			// directory; the fetch goroutine stores its result in the pod and nothing else
+			strayIO = nil
+			vos.Reset()
+			vos.Before = func(op *vos.Op) {
+				if t := sched.Current(); t != nil && t.Name != "handler" && t.Name != "second-reader" {
+					strayIO = append(strayIO, fmt.Sprintf("%s %s by thread %q", op.Kind, filepath.Base(op.Path), t.Name))
+				}
+			}
 			os.RemoveAll(dir)
 			cch, err := NewCache(Options{CacheDir: dir})
 			if err != nil {
@@ -88,8 +99,12 @@ func TestVerifC15Fetch(t *testing.T) {
 				w.Report(mc.Violation{Property: "C15", Oracle: oracle, Signature: "fetch:" + oracle, Scenario: "fetch/" + mode,
 					Trace: []string{fmt.Sprint(choices)}, Detail: detail})
 			}
+			vos.Before = nil
 			for _, p := range s.Panics {
 				viol("panic", p)
+			}
+			if len(strayIO) > 0 {
+				viol("cache-written-outside-handler", fmt.Sprintf("the state directory was written by a thread that is not a request handler (and so holds no lock): %v (schedule %v)", strayIO, choices))
 			}
 			if s.Diverged != "" {
 				w.Res.Nondet = append(w.Res.Nondet, "fetch/"+mode+": "+s.Diverged)
